@@ -549,6 +549,11 @@ func (r *RIB) addEntryInternal(ni string, op *spb.AFTOperation, oks, fails *[]*O
 
 	switch {
 	case opErr != nil:
+		// The error is fatal for this operation, so it must never be retried - ensure
+		// that it is not (or no longer) pending, and is not reported again within
+		// this stack.
+		installStack[op.GetId()] = true
+		r.rmPending(op.GetId())
 		*fails = append(*fails, &OpResult{
 			ID:    op.GetId(),
 			Op:    op,
